@@ -75,11 +75,15 @@ int main(void)
    if (line.len < 7) { respond("x"); continue; }
    if (line.len > 100) { respond("x"); continue; }
    if (line.s[line.len - 1]) { respond("x"); continue; } /* impossible */
+   id = 0;
    for (i = 5;i < line.len - 1;++i)
-     if ((unsigned char) (line.s[i] - '0') > 9)
-       break;
+    {
+     unsigned long digit = (unsigned char) (line.s[i] - '0');
+     if (digit > 9) break;
+     if (id > ((unsigned long) -1 - digit) / 10) break; /* does not fit */
+     id = id * 10 + digit;
+    }
    if (i < line.len - 1) { respond("x"); continue; }
-   if (!scan_ulong(line.s + 5,&id)) { respond("x"); continue; }
    if (byte_equal(line.s,5,"foop/"))
     {
 #define U(prefix,flag) fmtqfn(fnbuf,prefix,id,flag); \
